@@ -6,6 +6,7 @@ import json, os, subprocess, sys, shutil, re
 ROOT = "/verif"
 pid, out = sys.argv[1], sys.argv[2]
 tier = sys.argv[3] if len(sys.argv) > 3 else "quick"
+label = (sys.argv[4] + "-") if len(sys.argv) > 4 else ""
 for i in sorted(os.listdir(out)):
     d = os.path.join(out, i)
     if not os.path.exists(os.path.join(d, "patch.diff")): continue
@@ -23,8 +24,8 @@ for i in sorted(os.listdir(out)):
     meta.update({"demo_dir": demo_dir, "confirmed_by_orchestrator": confirmed,
                  "detected_by": {"check": "./check %s --tier %s (tools/seedtest.sh, scratch worktree)" % (pid, tier),
                                  "result": kind, "violation_lines": len(viol), "summary": summary[-1] if summary else "", "exit": exitl[-1] if exitl else ""}})
-    dst = os.path.join(ROOT, "seeded", "%s-%s" % (pid, i))
+    dst = os.path.join(ROOT, "seeded", "%s-%s%s" % (pid, label, i))
     os.makedirs(dst, exist_ok=True)
     shutil.copy(os.path.join(d, "patch.diff"), dst); shutil.copy(os.path.join(d, "demo_test.go"), dst)
     json.dump(meta, open(os.path.join(dst, "meta.json"), "w"), indent=1)
-    print("%s-%s: %s | %s" % (pid, i, confirmed[:40], kind))
+    print("%s-%s%s: %s | %s" % (pid, label, i, confirmed[:40], kind))
